@@ -4,10 +4,24 @@ REAL_PY = ["qubovert/**/*.py (unmodified copy of /repo's working tree)"]
 REAL_C = ["qubovert/sim/_canneal.c", "qubovert/sim/src/anneal_quso.c", "qubovert/sim/src/anneal_puso.c",
           "qubovert/sim/src/random.c (real PCG32 stream in pass-through mode)", "qubovert/sim/src/pcg_basic.c"]
 
+E4_META = {
+    "rule": ("each evaluation is one seeded history of <=24 calls of anneal_quso/puso/qubo/pubo in one process, every call with its own "
+             "model, schedule, visiting order, seed, simulated clock and RNG fault kind; a run is non-trivial if at least one RNG/clock/"
+             "history fault took effect or a call was refined step-by-step against the reference chain; distinct = distinct digests of "
+             "the per-call event log (results, draw counts, clock reads, allocation counts)"),
+    "expected_probes": ["rng_passthrough_recorded", "rng_scripted", "rng_scripted_cycle", "history_repeat", "matrix_index_gap",
+                        "single_variable", "no_variables", "empty_schedule", "seed_zero", "seed_none", "no_couplings"],
+    "components": {"real": REAL_C + REAL_PY,
+                   "stub": ["rand_init/rand_double/rand_int entry points (pass-through-and-record or scripted)", "time() (simulated clock array)",
+                            "malloc/realloc/free (poison fill + red zones in the sim build; ASan in the san build)"]},
+    "assumptions": ["integer / dyadic couplings so that all energies are exact in doubles", "reference Metropolis chain computes dE from two full exact evaluations",
+                    "seed=None results in pass-through mode depend on a stack address and are excluded from digests (verdict only)"],
+}
+
 PROPS = {
     "C13": {
         "engine": "e3",
-        "quick": {"runs": 48000, "block": 1500, "wall": 70},
+        "quick": {"runs": 320000, "block": 5000, "wall": 75},
         "thorough": {"runs": 1600000, "block": 10000, "wall": 540},
         "meta": {
             "rule": ("each evaluation is one seeded history of <=60 list operations on <=3 live AnnealResults with plain-list "
@@ -18,5 +32,25 @@ PROPS = {
             "assumptions": ["reference model is a plain Python list of (state,value,spin) records",
                             "reflected k*res and in-place *= are not issued (the property lists only *)"],
         },
+    },
+    "C11": {
+        "engine": "e4",
+        "quick": {"runs": 64000, "block": 1000, "wall": 75},
+        "thorough": {"runs": 1500000, "block": 4000, "wall": 560},
+        "meta": E4_META,
+    },
+    "C12": {
+        "engine": "e4",
+        "quick": {"runs": 32000, "block": 500, "wall": 75},
+        "thorough": {"runs": 600000, "block": 2000, "wall": 560},
+        "meta": E4_META,
+    },
+    "C17": {
+        "engine": "e4",
+        "quick": {"stages": [{"variant": "sim", "runs": 32000, "block": 500, "wall": 35},
+                             {"variant": "san", "runs": 32000, "block": 500, "wall": 45}]},
+        "thorough": {"stages": [{"variant": "sim", "runs": 200000, "block": 2000, "wall": 240},
+                                {"variant": "san", "runs": 120000, "block": 1000, "wall": 600}]},
+        "meta": E4_META,
     },
 }
